@@ -32,6 +32,15 @@ VT = "versatiles_container::container::versatiles::"
 PM = "versatiles_container::container::pmtiles::"
 
 
+def _hdr_field(n, fld, tys=("FileHeader", "HeaderV3")):
+    """is n the place `<local of header type>.fld`?"""
+    n = ir.strip(n)
+    if n is None or n.get("k") != "field" or n.get("name") != fld:
+        return False
+    base = ir.strip(n["e"])
+    return base is not None and any((base.get("t") or "").endswith(t) or (base.get("ta") or "").endswith(t) for t in tys)
+
+
 def fn(P, suffix):
     r = [b for b in P.bodies if b["q"].endswith(suffix)]
     return r[0] if r else None
@@ -164,7 +173,9 @@ def rules(ck, P):
                         for y in ir.walk_nodes(a["body"]):
                             if y.get("k") == "assign":
                                 v = [absint.vname(z["q"]).rsplit("::", 1)[-1] for z in ir.walk_nodes(y["r"]) if z.get("k") in ("path",) and z.get("dk", "").startswith("Ctor") and "Result" not in z["q"]]
-                                asg[ir.place_str(y["l"])] = v[0] if v else None
+                                lt = ir.strip(y["l"]).get("t", "")
+                                role = "tile_format" if "TileFormat" in lt else ("compression" if "TileCompression" in lt else ir.place_str(y["l"]))
+                                asg[role] = v[0] if v else None
                         rtab[p["e"]["v"]] = (asg.get("tile_format"), asg.get("compression"))
         spec = wire.SPEC_CODES["mbtiles.format"]
         ck.check(wtab == spec, "R-CODE", "mbtiles.format|writer", "writer maps (format, compression) to the MBTiles format strings %s" % sorted(wtab), "writer table %s differs from %s" % (wtab, spec), ir.loc(mw))
@@ -231,7 +242,7 @@ def rules(ck, P):
     if ck.anchor("R-BASE", "pmtiles writer/reader", [x for x in (pw, pr) if x], 2):
         sb = [n for n in ir.walk_nodes(pw["body"]) if n.get("k") == "mcall" and n.get("name") == "get_shifted_backward"]
         base_h = ir.local_hid(sb[0]["a"][0]) if len(sb) == 1 else None
-        hd = [n for n in ir.walk_nodes(pw["body"]) if n.get("k") == "assign" and ir.place_str(n["l"]).endswith("header.tile_data")]
+        hd = [n for n in ir.walk_nodes(pw["body"]) if n.get("k") == "assign" and _hdr_field(n["l"], "tile_data")]
         okw = base_h is not None and len(hd) == 1 and ir.contains(hd[0]["r"], lambda y: y.get("k") == "call" and (y.get("q") or "").endswith("ByteRange::new") and ir.local_hid(y["a"][0]) == base_h)
         ck.check(okw, "R-BASE", "pmtiles|write", "entry offsets are relative to tile_data_start, which is stored as header.tile_data.offset", "entry base and header.tile_data.offset are not the same variable", ir.loc(pw))
         sf = [n for n in ir.walk_nodes(pr["body"]) if n.get("k") == "mcall" and n.get("name") == "get_shifted_forward"]
@@ -305,21 +316,43 @@ def rules(ck, P):
         if not ck.anchor("R-RANGES", wname + " write_to_writer", [wfn] if wfn else [], 1):
             continue
         for fld, what in pairs:
-            asg = [n for n in ir.walk_nodes(wfn["body"]) if n.get("k") == "assign" and ir.place_str(n["l"]) == "header." + fld]
+            asg = [n for n in ir.walk_nodes(wfn["body"]) if n.get("k") == "assign" and _hdr_field(n["l"], fld)]
             okh = False
             if len(asg) == 1:
                 r = asg[0]["r"]
                 if wname == "versatiles":
                     okh = ir.contains(r, lambda y: y.get("k") == "call" and (y.get("q") or "").endswith("VersaTilesWriter::" + what))
                 else:
-                    okh = ir.contains(r, lambda y: y.get("k") == "mcall" and y.get("name") == "append" and what in ir.place_str(y["a"][0]) + (y["a"][0].get("src") or ""))
+                    lets_w = comp.lets_of(wfn)
+
+                    def is_what(a):
+                        a = ir.strip(a)
+                        if what in ("root_bytes", "leaves_bytes"):      # fields of the Directory returned by as_directory
+                            return a is not None and a.get("k") == "field" and a.get("name") == what
+                        # metadata: a local whose value derives from the source's TileJSON
+                        h_ = ir.local_hid(a)
+                        seen_, todo = set(), [h_]
+                        while todo:
+                            x_ = todo.pop()
+                            if x_ is None or x_ in seen_:
+                                continue
+                            seen_.add(x_)
+                            srcs = [lets_w.get(x_)] + [y["r"] for y in ir.walk_nodes(wfn["body"]) if y.get("k") == "assign" and ir.local_hid(y["l"]) == x_]
+                            for i_ in srcs:
+                                if i_ is None:
+                                    continue
+                                if ir.contains(i_, lambda y: y.get("k") == "mcall" and y.get("name") == "get_tilejson"):
+                                    return True
+                                todo += [ir.local_hid(y) for y in ir.walk_nodes(i_) if y.get("k") == "path" and y.get("r") == "local"]
+                        return False
+                    okh = ir.contains(r, lambda y: y.get("k") == "mcall" and y.get("name") == "append" and is_what(y["a"][0]))
             ck.check(okh, "R-RANGES", "%s|header.%s" % (wname, fld), "header.%s is the range returned by the write of %s" % (fld, what), "header.%s is not assigned from the write of %s" % (fld, what), ir.loc(wfn))
     for q_, what in (("versatiles::writer::VersaTilesWriter::write_meta", "compressed"), ("versatiles::writer::VersaTilesWriter::write_blocks", "block_index")):
         f_ = fn(P, q_)
         if f_ is None:
             continue
         sts = ir.stmts_of(ir.fn_block(f_))
-        ap = [n for n in ir.walk_nodes(f_["body"]) if n.get("k") == "mcall" and n.get("name") == "append" and what in (ir.place_str(n["a"][0]) + (n["a"][0].get("src") or ""))]
+        ap = [n for n in ir.walk_nodes(f_["body"]) if n.get("k") == "mcall" and n.get("name") == "append" and (n.get("q") or "").endswith("DataWriterTrait::append")]
         rets_ok = False
         if len(ap) == 1:
             last = sts[-1]
@@ -348,19 +381,42 @@ def rules(ck, P):
                 args = src.split('"', 2)[2]
                 names = [a.strip() for a in args.strip(" ,)\n\t").split(",") if a.strip()]
                 desc = str(names)
-                okw = names == ["coord.z", "coord.x", "coord.y", "extension_format", "extension_compression"]
-        lets = comp.lets_of(w)
-        exts = {}
-        for n in ir.walk_nodes(w["body"]):
-            if n.get("k") == "let" and n["pat"].get("k") == "bind" and n["pat"]["name"] in ("extension_format", "extension_compression") and "init" in n:
-                exts[n["pat"]["name"]] = comp.deep_place(n["init"], lets)
-        okx = "tile_format" in exts.get("extension_format", "") and "tile_compression" in exts.get("extension_compression", "")
+                byname = {}
+                for y in ir.walk_nodes(w["body"]):
+                    if y.get("k") in ("let", "letx", "while", "for") or "pat" in y:
+                        for x in ir.pat_binds(y.get("pat") or {}):
+                            byname.setdefault(x["name"], x)
+                lets_w = comp.lets_of(w)
+
+                def ext_of(nm):
+                    x = byname.get(nm)
+                    init = lets_w.get(x["hid"]) if x else None
+                    if init is None:
+                        return None
+                    m_ = [z for z in ir.walk_nodes(init) if z.get("k") == "mcall" and z.get("name") == "extension"]
+                    return ("format" if "TileFormat" in (m_[0].get("q") or "") else "compression" if "TileCompression" in (m_[0].get("q") or "") else None) if m_ else None
+                if len(names) == 5:
+                    roots = [nm.split(".")[0] for nm in names[:3]]
+                    cb = byname.get(roots[0])
+                    okw = len(set(roots)) == 1 and cb is not None and cb["t"].endswith("TileCoord3") and [nm.split(".")[-1] for nm in names[:3]] == ["z", "x", "y"]
+                    exts = {"extension_format": ext_of(names[3]), "extension_compression": ext_of(names[4])}
+        okx = exts.get("extension_format") == "format" and exts.get("extension_compression") == "compression" if "exts" in dir() else False
         ck.check(okw and okx, "R-NAME", fmt + "|writer", "member name = z/x/y + extension(format) + extension(compression) (%s)" % desc, "member name arguments are %s, extensions %s" % (desc, exts), ir.loc(w))
         # reader: compression stripped first, then format; z,x,y parsed as u8,u32,u32; TileCoord3::new(x,y,z)
         calls = [absint.vname(n.get("q") or "").rsplit("::", 2)[-2:] for n in _order(r["body"]) if n.get("k") == "call" and (n.get("q") or "").endswith("::from_filename")]
         order_ok = [c[0] for c in calls] == ["TileCompression", "TileFormat"]
         tc = [n for n in ir.walk_nodes(r["body"]) if n.get("k") == "call" and (n.get("q") or "").endswith("TileCoord3::new")]
-        args_ok = bool(tc) and [ir.place_str(a) for a in tc[0]["a"]] == ["x", "y", "z"]
+        # TileCoord3::new(x, y, z): three distinct locals typed (u32, u32, u8) whose definitions appear in path order z, x, y
+        args_ok = False
+        if tc and len(tc[0]["a"]) == 3:
+            hs = [ir.local_hid(a) for a in tc[0]["a"]]
+            tys = [ir.strip(a).get("t") for a in tc[0]["a"]]
+            order_of = {}
+            for i_, y in enumerate(ir.walk_nodes(r["body"])):
+                if y.get("k") in ("let", "letx"):
+                    for x in ir.pat_binds(y["pat"]):
+                        order_of.setdefault(x["hid"], i_)
+            args_ok = None not in hs and len(set(hs)) == 3 and tys == ["u32", "u32", "u8"] and all(h in order_of for h in hs) and order_of[hs[2]] < order_of[hs[0]] < order_of[hs[1]]
         types = {}
         for n in ir.walk_nodes(r["body"]):
             if n.get("k") == "let" and n["pat"].get("k") == "bind" and n["pat"]["name"] in ("x", "y", "z", "numeric1", "numeric2", "numeric3") and "init" in n:
